@@ -95,6 +95,12 @@ fn base() -> Vec<Op> {
         // calls that execute nothing must still honour a trim left pending by feed()
         Op::new(Inert(String::new())),
         Op::new(Inert("\x1b]0;t\x07".into())),
+        // a string left open by one call; what ends it in a later call (ESC of the next
+        // sequence, or an 8-bit control) is followed by scrolling output in that same call
+        Op::new(Inert("\x1b]2;abc".into())),
+        Op::new(Inert("\u{84}\u{84}\u{84}\u{84}\u{84}\u{84}\u{84}\u{84}\u{84}\u{84}\u{84}\u{84}".into())),
+        Op::new(Inert("\u{9c}\n\n\n\n\n\n\n\n\n\n\n\n".into())),
+        Op::new(Inert("\u{85}x\u{85}y\u{85}z\u{85}".into())),
     ]
 }
 
@@ -146,6 +152,30 @@ macro_rules! parts {
             nontrivial: Some("calls_with_scrollback"),
         }
     }};
+}
+
+fn alpha_plain_runs(cfg: &Cfg) -> Vec<Op> {
+    let mut v = alpha(cfg);
+    v.retain(|o| o.kind != Kind::Resize && o.kind != Kind::ResizeDrop);
+    v.push(t("abcdefghijklmnopq"));
+    v.push(t("0123456789abcdef"));
+    v.push(Op::resize(20, 1));
+    v.push(Op::resize(17, 3));
+    v
+}
+
+/// the same on a screen wide enough for runs of plain text that stay within one row
+fn plain_runs_part(tier: Tier) -> Part<'static, Sys> {
+    Part {
+        name: "plain-runs-on-a-wider-screen",
+        sys: &Sys,
+        cfgs: cfgs(&[(20, 2)], &[Some(0), Some(3), Some(10)]),
+        alphabet: &alpha_plain_runs,
+        depth: tier.pick(3, 4),
+        seconds: tier.pick(12.0, 600.0),
+        validated: false,
+        nontrivial: Some("calls_with_scrollback"),
+    }
 }
 
 /// "With scrollback limit L": however the builder was told - every order and repetition
@@ -350,12 +380,14 @@ pub fn run(ctx: &Ctx) -> Report {
     let mut rep = Report::new();
     let p = parts!(ctx.tier);
     run_part(ctx, &mut rep, &p);
+    let p2 = plain_runs_part(ctx.tier);
+    run_part(ctx, &mut rep, &p2);
     builder_orders(ctx, &mut rep);
     tall_screens(ctx, &mut rep);
     huge_limits(ctx, &mut rep);
     rep.rule = "BFS over histories of scroll-producing feeds (drained, dropped, partially drained, per-char) and resizes for limits 0,1,2,3,9,10,11,20; after every feed_str/resize call lines().len() is compared with rows+L+floor(L/10) and with rows on the alternate screen; non-trivial = calls that return with scrollback present; builder-call-orders: every sequence of <= 3 Builder calls over two sizes and three limits (156 sequences, first and second terminal built), then three scrolling calls under the bound of the limit last given".into();
     rep.assumptions = vec![
-        "alternate-screen showing is tracked syntactically from the commands (alphabet has no truncated sequences)".into(),
+        "alternate-screen showing is tracked syntactically from the commands (the one unterminated string of the alphabet is ended by the ESC that begins every mode command, so the command is still executed)".into(),
         "the bound is not required after feed() (no Changes value is returned); it is checked at the next feed_str/resize".into(),
     ];
     rep
@@ -379,6 +411,10 @@ pub fn replay(ctx: &Ctx, v: &Value) -> bool {
         let c2 = Ctx { id: ctx.id.clone(), tier, seed: 0, start: ctx.start, known: ctx.known.clone(), replay_dir: ctx.replay_dir.clone() };
         tall_screens(&c2, &mut rep);
         return rep.violations > 0;
+    }
+    if v["part"] == "plain-runs-on-a-wider-screen" {
+        let p2 = plain_runs_part(tier);
+        return replay_part(ctx, &p2, v);
     }
     let p = parts!(tier);
     replay_part(ctx, &p, v)
